@@ -122,6 +122,18 @@ CLAIMS = {
              "page/row-group splits and the thrift parser are not modelled; the driver's minimal footer reader is a trusted oracle.",
         technique="Lean proof (batch-split independence of the resumable RLE/bit-packed decoder) + decoder correspondence + batch-size metamorphic reads of real files",
         design="5/C10"),
+    "C14": dict(
+        text=("Props/C14.lean about Core/Catalog.lean (statement step functions of a session's temp catalog, settings and table contents; INSERT/CTAS evaluate their source with Sem on the state before "
+              "the statement) and Core/Collection.lean (code-shaped ConcurrentColumnCollection: chunked append, flush, sequential/parallel/snapshot scans): a failing statement changes nothing "
+              "(spec_failed_stmt_changes_nothing, all statements), sessions do not see each other's temp objects/settings (other_sessions_untouched), DROP/IF NOT EXISTS/SET-RESET laws, INSERT reads the "
+              "pre-state; the parallel claim protocol hands out every segment index exactly once for any number of scanners and any schedule (claims_perm, claims_nodup, claims_complete - induction over the "
+              "schedule); appending keeps every row in order for any chunk capacity; a snapshot scan never returns rows published after its creation (prefix_stable + snapshot_scan_reads_prefix) while the "
+              "live scan of the pinned commit reads its own appends (witness; repaired by a fix: commit); the code-shaped CTAS leaves a table behind on a run-time failure (witness; known finding). "
+              "Tie: random statement histories on 1-3 sessions vs the model after every statement plus a full state dump; self-inserts around the 16x2048-row flush threshold; exactly-once inserts under "
+              "partitions x batch_size; 400+ append/flush/scan interleavings of the real collection vs the model."),
+        note=TB + "Sem defines what a source query returns; multi-threaded races inside the scc catalog maps are not driven (statements run one at a time per engine); persistent catalogs do not exist at this commit.",
+        technique="Lean 4 proof (statement-step laws, claim protocol exactly-once by induction over schedules, snapshot-scan invariant) + history-level and collection-level differential correspondence",
+        design="5/C14"),
 }
 
 NOT_YET = {
